@@ -680,6 +680,36 @@ func c01WrongLength(c *fw.Ctx, g *model.G) {
 	if !injected {
 		return
 	}
+	if badLen > 0 && r.Chance(1, 3) {
+		// the bad coordinate is another window onto the array of the (valid)
+		// coordinate before it: same first element, another length
+		share := func(seq [][]float64) bool {
+			for k := 1; k < len(seq); k++ {
+				if len(seq[k]) == badLen && len(seq[k-1]) == stride && &seq[k][0] == &badCoord[0] {
+					base := make([]float64, stride+4)
+					copy(base, seq[k-1])
+					for i := stride; i < len(base); i++ {
+						base[i] = float64(100 + i)
+					}
+					seq[k-1], seq[k] = base[:stride], base[:badLen]
+					return true
+				}
+			}
+			return false
+		}
+		done := share(bad.C1)
+		for _, s2 := range bad.C2 {
+			done = done || share(s2)
+		}
+		for _, p3 := range bad.C3 {
+			for _, s2 := range p3 {
+				done = done || share(s2)
+			}
+		}
+		if done {
+			c.Count("wrong_length_window_onto_the_previous_coordinate")
+		}
+	}
 	c.SetInput(map[string]any{"geometry": bad.String(), "injected_length": badLen, "stride": stride})
 	var t geom.T
 	var err error
